@@ -16,9 +16,15 @@ def classify(case):
 
 SPEC = dict(
     prop="C04",
+    gens=[dict(name="UnlockOrder", cmd=["go", "run", "-C", "translators", ".", "unlockorder"],
+               what="order of marshal / Checkpoint / unlock steps in State.Unlock")],
     drivers=[
+        dict(name="ckptorder", kind="test", pkg="./overlord/state", run="TestVerifC04CkptOrder",
+             n=dict(quick=12, thorough=200), timeout=dict(quick=300, thorough=1800),
+             ev=dict(requires=["V.models.Restart"], case_type="Restart.ocase",
+                     mismatch="(fun _ => false)", monitor="Restart.omonitor_fail")),
         dict(name="restart", kind="test", pkg="./overlord/state", run="TestVerifC04Restart",
-             n=dict(quick=50, thorough=1500), timeout=dict(quick=300, thorough=1800),
+             n=dict(quick=40, thorough=1500), timeout=dict(quick=300, thorough=1800),
              ev=dict(requires=["V.models.Restart"], case_type="Restart.case",
                      mismatch="Restart.mismatch", monitor="Restart.monitor_fail")),
     ],
@@ -36,9 +42,17 @@ SPEC = dict(
           "the model: final statuses, statuses at each crash point, final statuses of restart and baseline runs, handler "
           "start counts after the restart. Monitored: restart final = baseline final, same task ids, no do start for a "
           "task past Doing in the payload, no undo start for Undone/Hold/Error, at least one start for a task persisted "
-          "Doing/Undoing. Non-trivial = some restart caught a task in Doing or Undoing."),
+          "Doing/Undoing. Non-trivial = some restart caught a task in Doing or Undoing. "
+          "Driver ckptorder: 1-3 goroutines doing 4-12 lock/modify/unlock cycles each (every modification bumps a sequence "
+          "marker stored in the state data) concurrently with a TaskRunner executing a chain of 1-3 tasks whose handlers also "
+          "modify the state, against a Backend whose Checkpoint (a) tries the state mutex (must be held by the caller), "
+          "(b) sleeps 0-3 ms pseudo-randomly per call, (c) records the markers in completion order and keeps the payload whose "
+          "write completed last; monitored: lock held at every call, markers non-decreasing, last completed marker = newest, "
+          "task statuses in that payload = in memory at quiescence."),
     exhaustive=dict(quick=False, thorough=False),
     trusted_base=[
+        "translators/unlockorder.go (go/ast): the lock-relevant steps of State.Unlock in source order",
+        "the persistence assumption of the model (the store holds the payload of the last unlock: checkpoints atomic and in order) is tied by C04_checkpoint_written_under_lock over the regenerated step list and by the ckptorder driver (state lock held during every Backend.Checkpoint call, writes complete in unlock order under concurrent unlockers, a runner and slow writes); the Backend implementation below Checkpoint (the file write) is C06",
         "hand-written compact model coq/models/Restart.v of TaskRunner.Ensure/run/mustWait/tryUndo and Change.AbortLanes for a single lane (overlord/state/taskrunner.go, change.go), tied by the differential run (harness/overlay/overlord/state/zz_verif_c04_test.go)",
         "goroutine scheduling is modelled by the event list; the driver makes the real runner deterministic by gating every handler (it never lets two completions race inside the runner)",
         "persist/reload is the identity on the task list in this model; the codec itself is C05's subject",
